@@ -469,10 +469,6 @@ func c18IsoRead(t0typ, t1typ byte, maybeTerm bool) {
 	vp.Unwind(8)
 	vp.AllocCap(16)
 	vp.AllocLimit(limit)
-	if noPVD {
-		// KF-C18-27: no primary volume descriptor before the terminator: nil root record dereferenced
-		vp.KnownPanic("KF-C18-27", "iso9660.detectSUSP)")
-	}
 	vp.KnownPanic("KF-C18-25", "iso9660.parsePathTable)")
 	vp.KnownPanic("KF-C18-25", "iso9660.parseJolietPathTable)")
 	vp.NoPanic()
@@ -485,6 +481,9 @@ func c18IsoRead(t0typ, t1typ byte, maybeTerm bool) {
 		vp.Assert(fs.rootDir != nil, "root record present")
 		vp.Cover("image accepted")
 	} else {
+		if noPVD {
+			vp.Cover("image without a primary volume descriptor rejected")
+		}
 		vp.Cover("image rejected")
 	}
 }
